@@ -48,6 +48,13 @@ file_create(struct file* file, const char* filename, size_t bytesof_filename)
             close(file->fid);
             CHECK_POSIX(tmp);
         }
+        // The file may already exist: drop its old contents (as CREATE_ALWAYS
+        // does on Windows), but only once we hold the lock.
+        if (ftruncate(file->fid, 0) < 0) {
+            int tmp = errno;
+            close(file->fid);
+            CHECK_POSIX(tmp);
+        }
     }
     return 1;
 Error:
